@@ -234,6 +234,41 @@ class Engine:
             if d and d[0] == 'sub':      # a.k <= x - y + b.k  ->  y - x <= b.k - a.k
                 x, y = d[1], d[2]
                 ok = st.zone.add(self._sym(y), self._sym(x), b.k - a.k + x.k - y.k)
+        elif ok and a.sym is not None and b.sym is not None:
+            ok = self._derive_linear(st, a, b)
+        return ok
+
+    def _find_add(self, st, s1, s2):
+        """(t_sym, offset) with  s1 + s2 = t_sym + offset  for an existing sum symbol, else None"""
+        for tsym in st.vn.get(('uses', s1), ()):
+            d = st.vn.get(('def', tsym))
+            if d is None or d[0] != 'add':
+                continue
+            p, q = d[1], d[2]
+            if (p.sym, q.sym) == (s1, s2) or (p.sym, q.sym) == (s2, s1):
+                return tsym, -(p.k + q.k)
+        return None
+
+    def _derive_linear(self, st, a, b):
+        """consequences of a <= b that relate three symbols through recorded sums / differences:
+        a <= x - y  gives  a + y <= x ;  x - y <= b  gives  x <= b + y  (when the sum symbol exists)"""
+        ok = True
+        db = st.vn.get(('def', b.sym))
+        if db is not None and db[0] == 'sub' and db[1].sym is not None and db[2].sym is not None:
+            x, y = db[1], db[2]           # b = (x - y) + b.k  with x, y carrying their own offsets
+            f = self._find_add(st, a.sym, y.sym)
+            if f is not None:
+                tsym, off = f             # a.sym + y.sym = tsym + off
+                # a.sym + a.k <= x.sym + x.k - y.sym - y.k + b.k   ->   tsym + off <= x.sym + (x.k - y.k + b.k - a.k)
+                ok = st.zone.add(tsym, x.sym, x.k - y.k + b.k - a.k - off) and ok
+        da = st.vn.get(('def', a.sym))
+        if ok and da is not None and da[0] == 'sub' and da[1].sym is not None and da[2].sym is not None:
+            x, y = da[1], da[2]           # a = (x - y) + a.k
+            f = self._find_add(st, b.sym, y.sym)
+            if f is not None:
+                tsym, off = f             # b.sym + y.sym = tsym + off
+                # x.sym + x.k - y.sym - y.k + a.k <= b.sym + b.k  ->  x.sym <= tsym + off + (b.k - a.k - x.k + y.k)
+                ok = st.zone.add(x.sym, tsym, off + b.k - a.k - x.k + y.k) and ok
         return ok
 
     def assume_cmp(self, st, op, a, b):
@@ -299,6 +334,11 @@ class Engine:
         if key in st.vn:
             st.vn[key0] = st.vn[key]
             return st.vn[key]
+        # y + (x - y) = x
+        for (p_, q_) in ((a, b), (b, a)):
+            d = st.vn.get(('def', q_.sym))
+            if d is not None and d[0] == 'sub' and isinstance(d[2], NumV) and d[2].sym is not None and d[2].sym == p_.sym:
+                return NumV(d[1].sym, d[1].k + (p_.k - d[2].k) + q_.k, ty)
         alo, ahi = self.bounds(st, a)
         blo, bhi = self.bounds(st, b)
         t = self.fresh_num(st, None, alo + blo if -INF not in (alo, blo) else None,
@@ -317,6 +357,8 @@ class Engine:
         st.vn[key] = t
         st.vn[key0] = t
         st.vn[('def', t.sym)] = ('add', a, b)
+        for o in (a, b):
+            st.vn[('uses', o.sym)] = st.vn.get(('uses', o.sym), ()) + (t.sym,)
         return t
 
     def num_sub(self, st, a, b, ty):
@@ -336,6 +378,15 @@ class Engine:
         if key in st.vn:
             st.vn[key0] = st.vn[key]
             return st.vn[key]
+        # (x + y) - y = x ;  x - (x - y) = y
+        d = st.vn.get(('def', a.sym))
+        if d is not None and d[0] == 'add':
+            for (p_, q_) in ((d[1], d[2]), (d[2], d[1])):
+                if isinstance(q_, NumV) and q_.sym is not None and q_.sym == b.sym:
+                    return NumV(p_.sym, p_.k + q_.k - b.k + a.k, ty)
+        d = st.vn.get(('def', b.sym))
+        if d is not None and d[0] == 'sub' and isinstance(d[1], NumV) and d[1].sym is not None and d[1].sym == a.sym:
+            return NumV(d[2].sym, d[2].k + (a.k - d[1].k) - b.k, ty)
         # bounds of a - b from the zone
         sa, sb = self._sym(a), self._sym(b)
         hi = st.zone.get(sa, sb)
